@@ -59,7 +59,7 @@ DIFF_TAGS = [
     ('restore listing', 'rlisting'), ('skipped-directory', 'diag'), ('dry-run', 'dryrun'),
     ('unparsed', 'unparsed'), ('damaged', 'damaged'), ('payload without info', 'orphan-created'),
     ('info without payload', 'stray-created'), ('outside', 'outside'), ('new entry outside', 'outside'),
-    ('escape', 'escape'), ('created', 'mode'), ('failed argument', 'unnamed-failure'), ('info ', 'badinfo'),
+    ('escape', 'escape'), ('known-deviation dry-run', 'dryrun-absent-payload'), ('created', 'mode'), ('failed argument', 'unnamed-failure'), ('info ', 'badinfo'),
     ('absolute Path', 'badinfo'), ('relative Path', 'badinfo'), ('Path with', 'badinfo'),
     ('pre-existing info', 'info-modified'), ('junk ', 'junk-modified'), ('trash dir', 'tdir-shape'),
     ('unexpected', 'unexpected'), ('move:', 'move'),
